@@ -136,6 +136,72 @@ fn ext_check(set: &str, n: u32, got: Option<&'static ExtendedInstruction<'static
     }
 }
 
+/// lookups are pure functions of their argument: sequences of 60 lookups on one thread, in any
+/// order over the three tables (number near the previous one, the previous number again in
+/// another table, a declared number, an arbitrary one), each answer compared with the golden
+/// record - a cache, cursor or memo inside the tables shows up here
+fn sub_sequences(input: &[u8], st: &mut Stats) -> R {
+    let mut cs = Cs::new(input);
+    let g = golden();
+    let core_codes: Vec<u32> = g.core.iter().map(|i| i.opcode).collect();
+    let mut prev: u32 = 0;
+    let mut log: Vec<String> = vec![];
+    for _ in 0..60 {
+        let n: u32 = match cs.below(8) {
+            0 | 1 => prev.wrapping_sub(1 + cs.below(2) as u32),
+            2 => prev.wrapping_add(1 + cs.below(2) as u32),
+            3 => prev,
+            4 | 5 => core_codes[cs.below(core_codes.len())],
+            6 => cs.below(220) as u32,
+            _ => cs.u16() as u32,
+        };
+        let table = cs.below(4);
+        let r = match table {
+            0 | 1 => {
+                let n16 = (n & 0xffff) as u16;
+                log.push(format!("core {}", n16));
+                let got = no_panic("CoreInstructionTable::lookup_opcode", || CoreInstructionTable::lookup_opcode(n16))?;
+                let want = g.core_by_code.get(&(n16 as u32)).map(|i| &g.core[*i]);
+                match (got, want) {
+                    (None, None) => Ok(()),
+                    (Some(e), Some(w)) => core_entry(e, w).and_then(|_| {
+                        if table == 1 {
+                            let op = spirv::Op::from_u32(n16 as u32).ok_or_else(|| Fail::new("op-enum", w.opname.clone(), "declared opcode missing from spirv::Op".to_string()))?;
+                            let e2 = no_panic("CoreInstructionTable::get", || CoreInstructionTable::get(op))?;
+                            if e2.opcode != e.opcode || e2.opname != e.opname {
+                                return Err(Fail::new("get-vs-lookup", w.opname.clone(), format!("get({:?}) returns {}", op, e2.opname)));
+                            }
+                        }
+                        Ok(())
+                    }),
+                    (g0, w) => Err(Fail::new(
+                        "lookup-total",
+                        w.map(|w| w.opname.clone()).unwrap_or_else(|| format!("#{}", n16)),
+                        format!("lookup_opcode({}) = {:?}, golden {:?}", n16, g0.map(|e| e.opname), w.map(|w| &w.opname)),
+                    )),
+                }
+            }
+            2 => {
+                log.push(format!("glsl {}", n));
+                let a = no_panic("GlslStd450InstructionTable::lookup_opcode", || GlslStd450InstructionTable::lookup_opcode(n))?;
+                ext_check("glsl", n, a, &g.glsl)
+            }
+            _ => {
+                log.push(format!("opencl {}", n));
+                let b = no_panic("OpenCLStd100InstructionTable::lookup_opcode", || OpenCLStd100InstructionTable::lookup_opcode(n))?;
+                ext_check("opencl", n, b, &g.opencl)
+            }
+        };
+        if let Err(mut f) = r {
+            f.clause = format!("{}-in-sequence", f.clause);
+            return Err(f.with_decoded(log.join("; ")));
+        }
+        prev = n;
+    }
+    st.nontrivial(hash_str(&log.join(";")));
+    Ok(())
+}
+
 /// whole-table checks (index 0) and extended-instruction numbers 0..=2^17 (index 1..)
 fn sub_tables(input: &[u8], st: &mut Stats) -> R {
     let i = idx(input);
@@ -235,6 +301,7 @@ pub const SUBS: &[Sub] = &[
     Sub { name: "lookup-all-opcodes", f: sub_lookup },
     Sub { name: "tables", f: sub_tables },
     Sub { name: "random-ext-numbers", f: sub_random_ext },
+    Sub { name: "lookup-sequences", f: sub_sequences },
 ];
 
 pub fn run(ctx: &Ctx) {
@@ -242,6 +309,7 @@ pub fn run(ctx: &Ctx) {
     drive_enum(ctx, &SUBS[0], 65536);
     drive_enum(ctx, &SUBS[1], 1 + 128);
     drive_random(ctx, &SUBS[2], ctx.n(5_000, 500_000), 200);
+    drive_random(ctx, &SUBS[3], ctx.n(5_000, 2_000_000), 300);
     ctx.exhaustive.store(true, std::sync::atomic::Ordering::Relaxed);
 }
 
@@ -249,7 +317,7 @@ pub fn finish(ctx: &Ctx) -> i32 {
     crate::engine::finish(
         ctx,
         Finish {
-            rule: "complete enumeration of all 65536 opcode numbers through lookup_opcode, of every table entry through iter(), of every spirv::Op / GLOp / CLOp value through get(), of extended-instruction numbers 0..2^17 for both sets, plus random 32-bit extended-instruction numbers. Oracle: lookup returns an entry iff the number is a golden opcode; entry opcode/name are that opcode's; no two entries share a number; well-formedness computed directly (result type first and immediately followed by result id, no required operand after an optional one, variadic only last); operands (kind, quantifier), capabilities and extensions equal the golden record. non-trivial = declared number or direct neighbour of a declared number; distinct = the number.",
+            rule: "complete enumeration of all 65536 opcode numbers through lookup_opcode, of every table entry through iter(), of every spirv::Op / GLOp / CLOp value through get(), of extended-instruction numbers 0..2^17 for both sets, plus random 32-bit extended-instruction numbers, plus sequences of 60 lookups on one thread in arbitrary order over the three tables (a number near the previous one, the same number in another table, declared and arbitrary numbers). Oracle: lookup returns an entry iff the number is a golden opcode; entry opcode/name are that opcode's; no two entries share a number; well-formedness computed directly (result type first and immediately followed by result id, no required operand after an optional one, variadic only last); operands (kind, quantifier), capabilities and extensions equal the golden record. non-trivial = declared number or direct neighbour of a declared number; distinct = the number.",
             assumptions: vec![
                 "'the Khronos grammar of the pinned SDK release' is represented by the golden snapshot of the pinned tree, cross-checked against hand-typed specification anchors (opcode numbers, operand lists of ~110 classic instructions, GLSL.std.450 and OpenCL.std numbers); the JSON itself is not available offline".into(),
             ],
